@@ -8,6 +8,7 @@
  */
 #define VF_PROP "C07"
 #include "vf_common.h"
+#include <limits.h>
 #include "a/vec.h"
 #include "a/buf.h"
 #include "a/str.h"
@@ -156,10 +157,17 @@ typedef struct
     size_t mem_before;
 } seqst;
 
+static int cmp_style; /* per case: the documented comparator contract is only the sign of the result */
 static int seq_cmp(void const *l, void const *r)
 {
-    unsigned a = *(unsigned char const *)l, b = *(unsigned char const *)r;
-    return (a > b) - (a < b);
+    int const a = *(unsigned char const *)l, b = *(unsigned char const *)r;
+    switch (cmp_style)
+    {
+    case 1: return a - b;
+    case 2: return a < b ? INT_MIN : a > b ? INT_MAX : 0;
+    case 3: return a < b ? -2 - (b - a) % 5 : a > b ? 2 + (a - b) % 7 : 0;
+    default: return (a > b) - (a < b);
+    }
 }
 static void seq_mk(seqst *s, opd const *o, unsigned char *out, unsigned extra)
 {
@@ -812,6 +820,7 @@ static uint64_t vf_ncases(int tier) { return tier ? 1000000 : 2400; }
 static void vf_case(uint64_t c, vf_rng *r)
 {
     uint64_t A;
+    cmp_style = (int)(vf_hash64(0xC7, c) >> 9 & 3);
     gen_history(r);
     vf_log("history: kind %s, %d ops", kind_names[Hkind], Hn);
     for (int i = 0; i < Hn; ++i) { vf_log(" %d:%s(a=%zu,b=%zu,key=%u)", i, op_names[H[i].op], H[i].a, H[i].b, H[i].key); }
